@@ -43,7 +43,7 @@ def ty_text(t):
     return t[0]
 
 
-LLVM14_MISSING = {"named-args", "!exists", "!div", "!tolower", "!toupper", "!range", "!getdagarg", "!getdagname", "!setdagarg",
+LLVM14_MISSING = {"named-args", "uninitialised-field", "untyped-question", "!exists", "!div", "!tolower", "!toupper", "!range", "!getdagarg", "!getdagname", "!setdagarg",
                   "!setdagname", "!listremove", "!logtwo", "!listflatten", "!repr", "!initialized", "dump"}
 
 
@@ -110,6 +110,7 @@ class Gen:
         self.feats = feats or {}
         self.dead = []           # names whose declaring construct has ended: (name, key)
         self.hide = set()        # names not to be used right now (no self reference in an initialiser)
+        self.field_init = False  # writing the initialiser of a typed field (an empty list literal has a type there)
         self.loop_vars = []      # (name, type) of the enclosing foreach statements
         self.in_mc = 0           # inside a multiclass body: defs are prototypes, not referable by name
 
@@ -284,7 +285,7 @@ class Gen:
                 self.w("{" + ", ".join(r.choice(["0", "1"]) for _ in range(t[1])) + "}")
         elif k == "list":
             self.w("[")
-            n = r.choice([0, 1, 2, 3])
+            n = r.choice([0, 1, 2, 3] if (depth <= 1 and self.field_init) else [1, 2, 3])   # llvm: `[]` needs a context type
             for i in range(n):
                 if i:
                     self.w(", ")
@@ -318,6 +319,8 @@ class Gen:
             self.class_value(self.r.choice(subs), max(depth, 3))
         else:
             self.w("?")
+            if depth > 1 or not self.field_init:
+                self.feat("untyped-question")
 
     def can_instantiate(self, cname):
         return self.classes[cname].complete
@@ -445,7 +448,7 @@ class Gen:
             self.class_value(t[1], depth) if self.can_instantiate(t[1]) else self.w("?")
         elif t[0] == "list":
             self.w("[")
-            for i in range(self.r.choice([0, 1, 2])):
+            for i in range(self.r.choice([1, 2])):
                 if i:
                     self.w(", ")
                 self.value_exact(t[1], depth + 1)
@@ -846,11 +849,15 @@ class Gen:
             sym = Sym(key, t, "field")
             rec.own.add(name)
             self.record_fields.add(name)
-            if r.random() < 0.7 and not redecl:
+            if r.random() < 0.1:
+                self.feat("uninitialised-field")
+            elif not redecl:
                 # the initialiser is written before the field is bound: no self reference
                 self.w(" = ")
                 vlo = self.here()
+                self.field_init = True
                 self.value(t, 1)
+                self.field_init = False
                 self.p.sites.append({"kind": "init", "path": self.cur, "lo": vlo, "hi": self.here(), "ty": t})
             self.w(";")
             rec.fields[name] = sym
@@ -1336,19 +1343,46 @@ def _splice(files, path, lo, hi, new):
     return out
 
 
-def _others(p, path, cascades):
-    """files that the fault does not touch: every other file; when the fault can make later declarations
-    disappear (unknown class in a type or parent position, missing include), only the files whose indexing was
-    complete before the faulty file was entered"""
+def _dependents(p, roots):
+    """files that (transitively) use a declaration made in one of [roots]"""
+    dep = {}
+    for (f, _lo, _hi, key) in p.uses:
+        d = p.decls[key][0]
+        if d != f:
+            dep.setdefault(d, set()).add(f)
+    seen, todo = set(roots), list(roots)
+    while todo:
+        x = todo.pop()
+        for y in dep.get(x, ()):
+            if y not in seen:
+                seen.add(y)
+                todo.append(y)
+    return seen
+
+
+def _others(p, path, cascades, lost=()):
+    """files that the fault does not touch: files that do not (transitively) use a declaration of the faulty
+    file (or of a file that is no longer included); when the fault can make later declarations disappear
+    (unknown class in a type or parent position, missing include), in addition only the files whose indexing
+    was complete before the faulty file was entered"""
+    touched = _dependents(p, [path] + list(lost))
     if not cascades:
-        return [f for f in p.files if f != path]
+        return [f for f in p.files if f not in touched]
     anc = set()
     f = path
     while f is not None:
         anc.add(f)
         f = p.parent.get(f)
     k = p.order.index(path)
-    return [f for f in p.order[:k] if f not in anc]
+    return [f for f in p.order[:k] if f not in anc and f not in touched]
+
+
+def _under(p, f, anc):
+    while f is not None:
+        f = p.parent.get(f)
+        if f == anc:
+            return True
+    return False
 
 
 def seed_faults(p, rng):
@@ -1386,8 +1420,9 @@ def seed_faults(p, rng):
     if x:
         new = 'include "missing_%d.td"' % rng.randrange(100)
         files = _splice(p.files, x["path"], x["lo"], x["hi"], new)
+        lost = [f for f in p.files if f == x["target"] or _under(p, f, x["target"])]
         out.append(Fault("undefined-include", files, x["path"], x["lo"], x["lo"] + len(new), ["IncludeNotFound"],
-                         _others(p, x["path"], True), ""))
+                         [f for f in _others(p, x["path"], True, lost) if f not in lost], ""))
     refs = [x for x in sites if x["kind"] in ("class-parent", "class-value", "multiclass-parent") and x.get("args")]
     # missing: drop every argument when a required one exists
     c = [x for x in refs if any(not a[2] for a in x["args"]["targs"]) and x["args"]["open"] is not None]
@@ -1443,4 +1478,27 @@ def seed_faults(p, rng):
         out.append(Fault("syntax-error", _splice(p.files, x["path"], x["lo"], x["lo"], junk), x["path"],
                          x["lo"], x["lo"] + 1, ["Syntax"], _others(p, x["path"], False),
                          "root" if x["path"] == p.root else "included"))
+    return out
+
+
+# ---------------------------------------------------------------------------------------------------------
+# known finding (C13, key=if-sibling-records): operands of !if / !listconcat / !listremove of distinct record
+# types neither of which casts to the other.  Well-formed TableGen (llvm-tblgen accepts) that the indexer
+# reports; a dedicated small family so that every run reproduces it.
+def known_if_siblings(rng, k):
+    out = []
+    for _ in range(k):
+        a, b, c = ("A%d" % rng.randrange(10), "da%d" % rng.randrange(10), "db%d" % rng.randrange(10))
+        shape = rng.choice(["if-defs", "if-class-sub", "listconcat", "listremove"])
+        pre = "class %s { int q = %d; }\ndef %s : %s;\ndef %s : %s;\n" % (a, rng.randrange(9), b, a, c, a)
+        if shape == "if-defs":
+            body = "def U { %s x = !if(%s, %s, %s); }" % (a, rng.choice(["1", "0", "true"]), b, c)
+        elif shape == "if-class-sub":
+            pre += "class S%s : %s;\n" % (a, a)
+            body = "def U { %s x = !if(1, %s<>, S%s<>); }" % (a, a, a)
+        elif shape == "listconcat":
+            body = "def U { list<%s> l = !listconcat([%s], [%s]); }" % (a, b, c)
+        else:
+            body = "def U { list<%s> l = !listremove([%s, %s], [%s]); }" % (a, b, c, c)
+        out.append({"shape": shape, "files": {"/w/main.td": pre + body + "\n"}, "root": "/w/main.td"})
     return out
